@@ -7,7 +7,7 @@ From Coq Require Import List Bool Arith ZArith Lia Sorting.Sorted Sorting.Permut
 From TLXV Require Import Common.Order.
 From TLXV Require C08.MSP C08.MSPSpec C08.MSPCorrect.
 From TLXV Require C05.StableMerge C05.StableMergeFacts C05.Model C05.MergeFacts C05.BaseProofs C05.RefTreeProofs C05.Final.
-From TLXV Require Import C07.SMerge C07.PMWM C07.PMWMProofs C07.PMWMExact C07.PMWMSampling C07.PMWMTop.
+From TLXV Require Import C07.SMerge C07.SortedPerm C07.PMWM C07.PMWMProofs C07.PMWMExact C07.PMWMSampling C07.PMWMTop.
 Import ListNotations.
 
 Section Inst.
@@ -175,11 +175,11 @@ Section Inst.
   Qed.
 
   (** adapter: multiway_merge_base with algorithm [alg] and the reference tournament trees, as C05 runs it
-      ([Model.ref_mwm]); no sentinel values (the parallel path and the fall-back without sentinels never read
-      them) *)
-  Definition seq05 (alg : Model.mwma) (stable sentinels : bool) (cs : list (list A)) (n : nat)
+      ([Model.ref_mwm]); the sentinel values are those the caller stored behind the sequences *)
+  Definition seq05 (alg : Model.mwma) (stable : bool) (sentinels : option (list A)) (cs : list (list A)) (n : nat)
     : list A * list nat :=
-    match Model.ref_mwm ltb stable sentinels alg cs [] n with
+    match Model.ref_mwm ltb stable (match sentinels with Some _ => true | None => false end) alg cs
+                        (match sentinels with Some sents => sents | None => [] end) n with
     | Some (o, _, cur) => (o, cur)
     | None => ([], [])
     end.
@@ -189,7 +189,7 @@ Section Inst.
 
   Theorem seq05_stable_spec alg : seqmerge_stable_spec ltb (seq05 alg).
   Proof.
-    intros cs n Hs Hn. unfold seq05.
+    intros cs n Hs Hn. unfold seq05. cbv iota.
     rewrite (Final.ref_mwm_stable ltb Hswo false alg cs [] n (inputs_ok_of cs Hs)).
     - cbn [fst]. now rewrite gmerge_smerge.
     - now rewrite total_concat.
@@ -199,7 +199,7 @@ Section Inst.
   (** the unstable sequential merge: a sorted permutation of everything when asked for everything *)
   Theorem seq05_unstable_spec alg : seqmerge_unstable_sorted_spec ltb (seq05 alg).
   Proof.
-    intros cs Hs. unfold seq05, Model.ref_mwm.
+    intros cs Hs. unfold seq05, Model.ref_mwm. cbv iota.
     destruct (Final.mwm_run ltb Hswo _ _ _ _ _ (fun _ => True) (RefTreeProofs.ref_gtree_ok ltb Hswo)
                 _ _ _ _ _ (fun _ => True) (fun _ _ => True) (RefTreeProofs.ref_utree_ok ltb Hswo)
                 false false alg cs [] (length (concat cs))
@@ -234,27 +234,71 @@ Section Inst.
     - apply seq05_stable_spec.
     - now apply part08_spec.
   Qed.
-  (** unstable variants, both splitting requests: windows, permutation of the merge prefix, cursors (the
-      [parallel_result_unstable] conjuncts) and sortedness of the output *)
+  (** the sequential merge itself, any variant, any length: sorted, and position by position equivalent to
+      the stable merge prefix (the [n] smallest elements are determined up to equivalence) *)
+  Theorem seq05_eqv_prefix alg stable (cs : list (list A)) (n : nat) :
+    Forall (fun l => sorted l) cs -> n <= PMWM.total cs ->
+    Forall2 (fun x y => eqv ltb x y = true) (fst (seq05 alg stable None cs n)) (firstn n (smerge cs)).
+  Proof.
+    intros Hs Hn. unfold seq05, Model.ref_mwm. cbv iota.
+    destruct (Final.mwm_run ltb Hswo _ _ _ _ _ (fun _ => True) (RefTreeProofs.ref_gtree_ok ltb Hswo)
+                _ _ _ _ _ (fun _ => True) (fun _ _ => True) (RefTreeProofs.ref_utree_ok ltb Hswo)
+                stable false alg cs [] n (inputs_ok_of cs Hs)) as (out & st' & E & R & L).
+    - exact Hn.
+    - discriminate.
+    - apply BaseProofs.side_ok_trivial; intros; exact I.
+    - rewrite E. cbn [fst].
+      pose proof (StableMergeFacts.mrun_perm ltb _ _ _ _ R) as P.
+      destruct (MergeFacts.mrun_sorted ltb Hswo _ _ _ _ (Final.inputs_ok_sorted ltb Hswo _ (inputs_ok_of cs Hs)) R) as [So Lo].
+      assert (Ssm : sorted (smerge cs)) by now apply (smerge_sorted ltb Hswo).
+      apply (smallest_prefix_eqv ltb Hswo out (concat st') (firstn n (smerge cs)) (skipn n (smerge cs)) (concat cs)).
+      + now apply StronglySorted_Sorted.
+      + now apply sorted_firstn.
+      + rewrite L, firstn_length, (smerge_length ltb cs), <- total_concat. unfold StableMerge.total, PMWM.total, lens, sum in *.
+        fold (list_sum (map (@length A) cs)). change (fold_right Nat.add 0 (map (@length A) cs)) with (list_sum (map (@length A) cs)) in Hn. lia.
+      + exact P.
+      + rewrite firstn_skipn. apply smerge_perm.
+      + intros o y Ho Hy. apply in_concat in Hy as (l & Hl & Hy). exact (Lo o Ho l y Hl Hy).
+      + intros o y. now apply (sorted_firstn_skipn_le ltb Hswo).
+  Qed.
+
+  (** unstable variants, both splitting requests: the complete statement ([parallel_result_unstable_full]:
+      windows, output position by position equivalent to the stable merge prefix, sorted, a permutation of
+      exactly the prefixes the cursors passed, cursors, thread count), and: position by position equivalent to
+      what the sequential unstable merge of the same inputs writes. *)
   Theorem closed_parallel_unstable alg sampling (seqs : list (list A)) (size p os : nat) :
     Forall (fun l => sorted l) seqs -> size <= PMWM.total seqs -> 1 <= p -> (sampling = true -> 1 <= os) ->
-    parallel_result_unstable ltb seqs size p (pmwm_base ltb part08 (seq05 alg) false sampling seqs size p os) /\
-    forall r, pmwm_base ltb part08 (seq05 alg) false sampling seqs size p os = Some r -> sorted (output (p_threads r)).
+    parallel_result_unstable_full ltb seqs size p (pmwm_base ltb part08 (seq05 alg) false sampling seqs size p os) /\
+    forall r, pmwm_base ltb part08 (seq05 alg) false sampling seqs size p os = Some r ->
+      Forall2 (fun x y => eqv ltb x y = true) (output (p_threads r)) (fst (seq05 alg false None seqs size)).
   Proof.
     intros Hs Hsz Hp Hos.
     assert (B : bounds_ok ltb part08 sampling seqs size p os)
       by (apply (bounds_ok_all ltb Hswo); auto; now apply part08_spec).
-    split.
-    - apply pmwm_base_unstable_partial; auto. intros cs Hcs. apply (seq05_unstable_spec alg cs Hcs).
-    - apply pmwm_base_unstable_sorted; auto. apply seq05_unstable_spec.
+    pose proof (pmwm_base_unstable ltb Hswo part08 (seq05 alg) sampling seqs size p os Hs Hsz Hp
+                  (seq05_unstable_spec alg) B) as F.
+    split; [exact F|].
+    intros r Er. destruct F as (ts & cur & E & _ & Q & _). rewrite E in Er. injection Er as <-. cbn [p_threads].
+    eapply (Forall2_eqv_trans ltb Hswo); [exact Q|].
+    apply (Forall2_eqv_sym ltb). now apply seq05_eqv_prefix.
   Qed.
 
-  (** the stable fall-back without sentinels *)
-  Theorem closed_fallback_stable alg sw sampling (seqs : list (list A)) size p os :
+  (** the stable fall-back, all four entry points: without sentinels, and with sentinels provided the caller
+      stored behind every sequence an element greater than all real ones (C05's [sent_ok]) *)
+  Theorem closed_fallback_stable alg sw sentinels sampling (seqs : list (list A)) size p os :
     seqs <> [] -> goes_parallel sw (length seqs) size p = false ->
     Forall (fun l => sorted l) seqs -> size <= PMWM.total seqs ->
-    exists ts cur, pmwm ltb part08 (seq05 alg) sw true false sampling seqs size p os =
+    (forall sents, sentinels = Some sents -> BaseProofs.sent_ok ltb seqs sents) ->
+    exists ts cur, pmwm ltb part08 (seq05 alg) sw true sentinels sampling seqs size p os =
                    Some {| p_threads := ts; p_cursors := cur; p_ret := size |} /\
                    contiguous ts 0 size /\ output ts = firstn size (smerge seqs) /\ length ts = 1.
-  Proof. intros. apply pmwm_fallback_stable; auto. apply seq05_stable_spec. Qed.
+  Proof.
+    intros Hne Hg Hs Hsz Hsent. apply pmwm_fallback_stable; auto.
+    unfold seq05.
+    rewrite (Final.ref_mwm_stable ltb Hswo (match sentinels with Some _ => true | None => false end) alg seqs
+               (match sentinels with Some sents => sents | None => [] end) size (inputs_ok_of seqs Hs)).
+    - cbn [fst]. now rewrite gmerge_smerge.
+    - exact Hsz.
+    - destruct sentinels as [sents|]; [intros _; now apply Hsent|discriminate].
+  Qed.
 End Inst.
